@@ -78,6 +78,7 @@ func runC01(c *Ctx, r *Report) {
 	c01ClassConditions(c, r, "C01-a/class-condition")
 	c01BatcherLoops(c, r, "C01-b")
 	c01Worker(c, r, "C01-c")
+	c01WorkerForward(c, r, "C01-c/worker-forward")
 	units := allBodies(c)
 	c05CloseDiscipline(c, r, units, "C01-d")
 	// counters atomic everywhere
